@@ -202,6 +202,14 @@ def navigation(root):
             W().walk(r)
         if set(visited) != {id(n) for n in nodes}:
             return f'{wcls.__name__} visited {len(set(visited))} of {len(nodes)} reachable nodes'
+        # a walker object is not spent by a walk: the same object walks the same trees again and reaches every node again
+        w = W()
+        for turn in ('first', 'second'):
+            del visited[:]
+            for r in roots:
+                w.walk(r)
+            if set(visited) != {id(n) for n in nodes}:
+                return f'{wcls.__name__} visited {len(set(visited))} of {len(nodes)} reachable nodes on the {turn} walk of one walker object'
     return None
 
 
